@@ -5,7 +5,7 @@
 From Coq Require Import ZArith List Bool NArith.
 Import ListNotations.
 Require Import PV.Core.Obj PV.Core.Val PV.Core.Subst.
-Require Import PV.Proofs.Dedup PV.Proofs.Unite PV.Proofs.UniteLaws PV.Proofs.C14Witness.
+Require Import PV.Proofs.Dedup PV.Proofs.Unite PV.Proofs.UniteLaws PV.Proofs.SubstLaws PV.Proofs.C14Witness.
 
 (* the result of unite_values never nests unions (for any key identification) *)
 Theorem C14_unite_no_nesting : forall E l,
@@ -49,6 +49,38 @@ Theorem C14_unite_comm_partial : forall n a b,
 Proof. exact unite_comm. Qed.
 Print Assumptions C14_unite_comm_partial.
 
+(* associativity up to ==, under the same kind of guard (Any[unreachable] added: it is what
+   uniting only-unreachable operands returns) *)
+Theorem C14_unite_assoc_partial : forall n a b c,
+  flat a = true -> flat b = true -> flat c = true ->
+  fits n (VAnyUnreachable :: flatten a ++ flatten b ++ flatten c) = true ->
+  equiv_onb (E_f n) (VAnyUnreachable :: flatten a ++ flatten b ++ flatten c) = true ->
+  veq_f (S n) (unite_f n [unite_f n [a; b]; c]) (unite_f n [a; unite_f n [b; c]]) = true.
+Proof. exact unite_assoc. Qed.
+Print Assumptions C14_unite_assoc_partial.
+
+Example C14_assoc_example :
+  let a := VUnion [w_int; w_list1] in let b := w_tup (VUnion [w_int; w_str]) in let c := VUnion [w_str; w_int; VAnyUnreachable] in
+  flat a = true /\ flat b = true /\ flat c = true /\
+  fits 10 (VAnyUnreachable :: flatten a ++ flatten b ++ flatten c) = true /\
+  equiv_onb (E_f 10) (VAnyUnreachable :: flatten a ++ flatten b ++ flatten c) = true /\
+  unite_f 10 [unite_f 10 [a; b]; c] = VUnion [w_int; w_list1; w_tup (VUnion [w_int; w_str]); w_str].
+Proof. exact assoc_example. Qed.
+Print Assumptions C14_assoc_example.
+
+(* substituting type variables is the identity on values without type variables (whose
+   derived fields and unions are in the form the constructors / unite_values produce) *)
+Theorem C14_subst_id_on_closed : forall n m v, closed v = true -> canonical n v -> subst_f n m v = v.
+Proof. exact subst_id_on_closed. Qed.
+Print Assumptions C14_subst_id_on_closed.
+
+Example C14_subst_closed_example :
+  closed w_closed = true /\ canonical 10 w_closed /\
+  subst_f 10 [(1%N, w_float)] w_closed = w_closed /\
+  subst_f 10 [(1%N, w_float)] (VNode (TGeneric c_list) [VNode (TTypeVar 1 false) []]) = VNode (TGeneric c_list) [w_float].
+Proof. exact subst_closed_example. Qed.
+Print Assumptions C14_subst_closed_example.
+
 Theorem C14_unite_comm_refuted : ~ unite_comm_full_statement.
 Proof. exact unite_comm_refuted. Qed.
 Print Assumptions C14_unite_comm_refuted.
@@ -61,6 +93,16 @@ Print Assumptions C14_eq_hash_refuted_union_order.
 Theorem C14_eq_hash_refuted_unhashable_literal : ~ eq_implies_hash_eq_full_statement.
 Proof. exact eq_hash_refuted_unhashable_literal. Qed.
 Print Assumptions C14_eq_hash_refuted_unhashable_literal.
+
+Theorem C14_eq_hash_refuted_kwonly_order : ~ eq_implies_hash_eq_full_statement.
+Proof. exact eq_hash_refuted_kwonly_order. Qed.
+Print Assumptions C14_eq_hash_refuted_kwonly_order.
+
+(* the order in which the keys of a TypedDict are declared is invisible to ==, hash and unite *)
+Example C14_typeddict_key_order_consistent :
+  veq w_td_xy w_td_yx = true /\ heq w_td_xy w_td_yx = true /\ unite [w_td_xy; w_td_yx] = w_td_xy.
+Proof. exact typeddict_key_order_consistent. Qed.
+Print Assumptions C14_typeddict_key_order_consistent.
 
 Theorem C14_veq_transitive_refuted : ~ veq_transitive_full_statement.
 Proof. exact veq_transitive_refuted. Qed.
